@@ -14,7 +14,7 @@ from vlib import Broken, read_ndjson, write_ndjson, validate_history_trace, para
 SPEC = "c06_flow_queue"
 IDS = ["r1", "r2", "r3", "r4", "r5", "r6"]
 TICK_MS = 1000          # one model tick of a directed schedule = one wall-clock second (quota windows are whole seconds)
-SLACK_MS = 2000         # scheduling slack of the time predicate only (machine shared with other jobs)
+SLACK_MS = 3000         # scheduling slack of the time predicate only (machine shared with other jobs)
 
 # the implementation-shaped model: constants of MC_C06 / FlowQueueI
 GOOD = dict(SplitSlotCheck=False, RequeueNewTs=False, StopAllGuarded=True, DrainRepeats=True,
@@ -29,16 +29,16 @@ SAFETY = ["TypeOK", "OneVerdict", "OnlyIfQuota", "Order", "SizeBound", "NoCrash"
 
 # model variants: each must be refuted by TLC (non-vacuity of I => P) and yields the shortest schedule showing that
 # class of failure; the schedule is then forced on the real code, which must not show it.
-#   name -> (instance, flags, invariant expected to fail | "LIVENESS")
+#   name -> (instance, flags, invariant expected to fail | "PROP:<action property>" | "LIVENESS")
 VARIANTS = {
     "O11-stopall-unguarded": (SMALL2, dict(StopAllGuarded=False, DrainRepeats=False), "NoCrash"),
     "O13-split-slot-check": (SMALL2, dict(SplitSlotCheck=True), "SizeBound"),
     "O12-requeue-new-timestamp": (SMALL3, dict(RequeueNewTs=True), "Order"),
-    "drain-once": (SMALL2, dict(DrainRepeats=False), "LIVENESS"),
+    "drain-once": (SMALL2, dict(DrainRepeats=False), "NotStranded"),
     "mut-watcher-no-arbitration": (SMALL2, dict(WatcherArbitrates=False), "NoCrash"),
     "mut-heap-not-fifo": (SMALL3, dict(HeapFifo=False), "Order"),
     "mut-slot-off-by-one": (SMALL2, dict(SlotStrict=False), "SizeBound"),
-    "mut-no-stopall": (SMALL2, dict(CallsStopAll=False), "LIVENESS"),
+    "mut-no-stopall": (SMALL2, dict(CallsStopAll=False), "PROP:DrainReleases"),
 }
 
 CLASS = {"T_Order": "order-inversion", "T_SizeBound": "size-bound", "T_NoCrash": "crash", "T_InTTL": "no-verdict-in-ttl",
@@ -142,7 +142,10 @@ def script_from_steps(steps, prios):
                     s.append({"op": "await_verdict", "id": p})
             elif fr == "Enroll":
                 s.append({"op": "pass", "point": "q.after_slot_check", "id": p})
-                s.append({"op": "await", "point": "q.enqueued", "id": p})
+                if to == "Refuse":
+                    s.append({"op": "await_verdict", "id": p})
+                else:
+                    s.append({"op": "await", "point": "q.enqueued", "id": p})
             elif fr == "Return":
                 s.append({"op": "await_verdict", "id": p})
             elif fr == "Remove":
@@ -174,7 +177,7 @@ def predicted_events(steps):
             ev.append(("shutdown",))
         elif fr == "Arrive" and p.startswith("r"):
             ev.append(("arrive", p))
-        elif fr == "Enroll":
+        elif fr == "Enroll" and to != "Refuse":
             ev.append(("enq", p))
         elif fr == "Return":
             ev.append(("verdict", p, "allowed" if st["result"][p] == "success" else "blocked"))
@@ -320,20 +323,41 @@ def account(ctx, traces, verdicts, seen):
                 ctx.cov["distinct_nontrivial"] += 1
 
 
-def report(ctx, binary, scenario, hist, verdict, tag, deterministic):
-    """a recording rejected by the specification: reproduce it (same script again), then report."""
-    at, inv = verdict
-    w = witness_of(hist, at, inv)
-    attempts = 2 if deterministic else 20
-    for a in range(attempts):
-        t2 = execute(ctx, binary, [scenario], "%s-repro" % tag, par=1)[0]
-        v2 = judge(ctx, [t2], "%s-repro%d" % (tag, a))[0]
-        if v2 is not None and CLASS.get(v2[1]) == w["class"]:
-            w2 = witness_of(t2, v2[0], v2[1])
-            ctx.violation(w2 if ctx.match_known(w2) is None and ctx.match_known(w) is not None else w,
-                          {"scenario": scenario, "trace": hist, "rejected_at": at, "invariant": inv})
-            return w
-    raise Broken("rejection not reproduced in %d attempts (%s): %s" % (attempts, tag, json.dumps(w)))
+def report(ctx, binary, rejected):
+    """recordings rejected by the specification: [(name, scenario, hist, (at, invariant))].  A rejection that matches an
+    open finding is recorded as such; any other is reproduced first (same script again: forced schedules are
+    deterministic, free-running ones get up to 20 attempts), then reported; unreproduced => Broken."""
+    todo = []
+    for name, sc, hist, (at, inv) in rejected:
+        w = witness_of(hist, at, inv)
+        ctx.log("rejected by FlowQueueP: %s at event %d (%s) %s" % (name, at, inv, json.dumps({k: v for k, v in w.items() if k != "event"})))
+        if ctx.match_known(w) is not None:
+            ctx.violation(w, {"scenario": sc, "trace": hist, "rejected_at": at, "invariant": inv})
+        else:
+            todo.append((name, sc, hist, at, inv, w))
+    for rnd in range(4):
+        if not todo:
+            return
+        reps = 1 if rnd == 0 else (5 if rnd < 3 else 9)          # 1 + 5 + 5 + 9 = 20 attempts
+        batch = [x[1] for x in todo for _ in range(reps)]
+        traces = execute(ctx, binary, batch, "repro%d" % rnd, par=32)
+        verdicts = judge(ctx, traces, "repro%d" % rnd)
+        left = []
+        for i, x in enumerate(todo):
+            name, sc, hist, at, inv, w = x
+            hit = None
+            for t2, v2 in zip(traces[i * reps:(i + 1) * reps], verdicts[i * reps:(i + 1) * reps]):
+                if v2 is not None and CLASS.get(v2[1], v2[1]) == w["class"]:
+                    hit = (t2, v2)
+                    break
+            if hit:
+                ctx.violation(w, {"scenario": sc, "trace": hist, "rejected_at": at, "invariant": inv,
+                                  "reproduced_trace": hit[0], "reproduced_at": hit[1][0]})
+            else:
+                left.append(x)
+        todo = left
+    if todo:
+        raise Broken("rejection not reproduced in 20 attempts: %s" % json.dumps([(x[0], x[5]) for x in todo])[:1500])
 
 
 # ---------------------------------------------------------------------------------------------- TLC parts
@@ -341,10 +365,11 @@ def report(ctx, binary, scenario, hist, verdict, tag, deterministic):
 def tlc_variant(ctx, sd, name, inst, flags, expect, workers=None):
     """a model variant must be refuted; returns the counterexample as schedule steps."""
     live = expect == "LIVENESS"
+    prop = expect[5:] if expect.startswith("PROP:") else None
     cfg = "v_%s.cfg" % name
     open(os.path.join(sd, cfg), "w").write(
-        cfg_text(inst, flags, invariants=[] if live else [expect], spec="FairSpec" if live else "Spec",
-                 props=["Answered"] if live else []))
+        cfg_text(inst, flags, invariants=[] if (live or prop) else [expect], spec="FairSpec" if live else "Spec",
+                 props=["Answered"] if live else ([prop] if prop else [])))
     dump = os.path.join(sd, "v_%s.json" % name)
     r = ctx.tlc(sd, "MC_C06", cfg, timeout=900, workers=workers, extra=["-noGenerateSpecTE", "-dumpTrace", "json", dump],
                 label="variant %s must be refuted (%s)" % (name, expect))
@@ -356,6 +381,53 @@ def tlc_variant(ctx, sd, name, inst, flags, expect, workers=None):
     return steps, last
 
 
+def exhaustive(ctx, sd, cfg, label, timeout, workers):
+    r = ctx.tlc(sd, "MC_C06", cfg, timeout=timeout, workers=workers, extra=["-noGenerateSpecTE"], label=label)
+    if not r.ok:
+        raise Broken("TLC MC_C06/%s (%s): %r\n%s" % (cfg, label, r, r.out[-3000:]))
+    if r.distinct <= 1:
+        raise Broken("TLC MC_C06/%s explored a trivial state space" % cfg)
+    ctx.cov["states"] += r.distinct
+    ctx.cov["transitions"] += r.generated
+    ctx.log("TLC MC_C06 %s: %d generated / %d distinct, depth %d, %.1fs" % (cfg, r.generated, r.distinct, r.depth, r.wall))
+    return r
+
+
+def random_scenario(rng, k, thorough):
+    """free-running recording: concurrent arrivals with random priorities and pauses, sometimes a shutdown."""
+    cfgc = {"ttl_s": rng.choice([1, 1, 2]), "queue_size": rng.choice([1, 2, 3, 4]), "qmax": rng.choice([1, 1, 2, 3]),
+            "qwin_s": rng.choice([1, 1, 2]), "slack_ms": SLACK_MS}
+    n = rng.randint(3, 6)
+    steps = []
+    shut = rng.randint(1, n) if rng.random() < 0.3 else -1
+    for i in range(n):
+        if i == shut:
+            steps.append({"op": "shutdown"})
+        steps.append({"op": "arrive", "id": IDS[i], "prio": rng.choice(["p0", "p0", "p1", "p2"])})
+        d = rng.choice([0, 0, 0, 3, 20, 110, 250, 600] + ([1100] if thorough else []))
+        if d:
+            steps.append({"op": "sleep", "ms": d})
+    if shut == n:
+        steps.append({"op": "sleep", "ms": rng.choice([50, 300])})
+        steps.append({"op": "shutdown"})
+    steps.append({"op": "end"})
+    return {"name": "random-%d" % k, "config": cfgc, "steps": steps}
+
+
+def burst_scenario(rng, k):
+    """several requests of one priority queued while the loop is held, then released: admission order = arrival order
+    over several pops of the real heap (gated recording)."""
+    n = rng.choice([3, 4, 5])
+    prio = rng.choice(["p0", "p1"])
+    steps = [{"op": "hold", "point": "q.loop_tick", "id": ""}]
+    for i in range(n):
+        pr = prio if rng.random() < 0.8 else rng.choice(["p0", "p1", "p2"])
+        steps += [{"op": "arrive", "id": IDS[i], "prio": pr}, {"op": "await", "point": "q.enqueued", "id": IDS[i]}]
+    steps += [{"op": "unhold", "point": "q.loop_tick", "id": ""}, {"op": "end"}]
+    return {"name": "burst-%d" % k, "config": {"ttl_s": 2, "queue_size": n, "qmax": rng.choice([2, 3, n]), "qwin_s": 1, "slack_ms": SLACK_MS},
+            "steps": steps}
+
+
 def run(ctx):
     T = ctx.thorough
     binary = ctx.build_harness("c06")
@@ -363,18 +435,131 @@ def run(ctx):
     seen = set()
     ctx.cov["rule"] = ("recordings of the real Queue processor in a real engine: (a) schedules of the TLA+ model FlowQueueI "
                        "(TLC counterexamples of every model variant + TLC -simulate walks) forced through the yield points, "
-                       "(b) seeded free-running concurrent arrivals with random priorities / queue sizes / quotas / shutdown; "
-                       "a recording is non-trivial when at least two requests waited in the queue at the same time; "
-                       "distinct by the sequence of (event, request, outcome)")
-    ctx.cov["checker_cmd"] = "tlc -config MC_fixed2.cfg MC_C06.tla ; tlc -config FlowQueueTrace.cfg FlowQueueTrace.tla"
+                       "(b) bursts queued behind a held loop, (c) seeded free-running concurrent arrivals with random priorities / "
+                       "queue sizes / quotas / shutdown; a recording is non-trivial when at least two requests waited in the "
+                       "queue at the same time; distinct by the sequence of (event, request, outcome)")
+    ctx.cov["checker_cmd"] = ("tlc -config MC_fixed2.cfg MC_C06.tla ; (thorough) tlc -config MC_asis3.cfg MC_C06.tla ; tlc -config MC_fixed3.cfg "
+                              "MC_C06.tla ; tlc -config FlowQueueTrace.cfg FlowQueueTrace.tla")
     ctx.cov["trusted_base"] = ["TLC 1.8", "CommunityModules Json", "pcal translation (committed)", "Go toolchain",
                                "harness/cmd/c06 (gates on verifhook points, projection: early-response action = blocked)",
                                "child exit status = crash"]
     ctx.assumptions += ["single gateway (in-memory queue, redis_queue_size = -1)", "fixed-window quota attached to the queue only",
                         "TTL and quota window are whole seconds; 1 model tick = 1 s in forced schedules",
-                        "time predicate InTTL with %d ms scheduling slack; ordering predicates without slack" % SLACK_MS,
-                        "registration (AddRequest) and heap push are one model step"]
-    raise Broken("not finished")
+                        "time predicate InTTL with %d ms scheduling slack, not judged while a script holds gates; ordering "
+                        "predicates without slack" % SLACK_MS,
+                        "registration (AddRequest) and heap push are one model step; pop, StartProcessing and the quota call are one model step"]
+
+    # ---- (1) TLC: exhaustive I => P, the code as it is with its open finding, and every model variant (all in parallel)
+    q2 = "MC_fixed2.cfg"
+    if not T:
+        q2 = "MC_fixed2q.cfg"
+        open(os.path.join(sd, q2), "w").write(cfg_text(dict(SMALL2, MaxNow=4), {}, invariants=SAFETY, spec="FairSpec", props=["Answered"]))
+    jobs = [("x", q2, "I => P, repaired design, 2 requests + shutdown: safety and liveness", 4)]
+    if T:
+        jobs.append(("x", "MC_asis3.cfg", "I => P, code as it is (open finding O12): all clauses but Order, Order only after a requeue", 6))
+        jobs.append(("x", "MC_fixed3.cfg", "I => P, repaired design, 3 requests, 2 priorities: safety", 6))
+    for name in VARIANTS:
+        jobs.append(("v", name, None, 1))
+    variants = {}
+
+    def tlcjob(j):
+        kind, what, label, w = j
+        if kind == "x":
+            exhaustive(ctx, sd, what, label, 2400, w)
+        else:
+            inst, flags, expect = VARIANTS[what]
+            variants[what] = tlc_variant(ctx, sd, what, inst, flags, expect, workers=w)
+    parallel(tlcjob, jobs, n=len(jobs))
+    ctx.log("TLC refuted all %d model variants" % len(variants))
+    # the open finding's counterexample must be the named deviation: the overtaken request was pushed back
+    for kf, (flag, val) in KF_FLAGS.items():
+        vn = next(n for n, (_, fl, _) in VARIANTS.items() if fl == {flag: val})
+        last = variants[vn][1]
+        if not last["requeued"]:
+            raise Broken("counterexample of %s does not involve a requeue" % vn)
+
+    # ---- (2) spec -> code: the counterexample of each variant forced on the real code, judged by P
+    names = list(VARIANTS)
+    scs = [directed_scenario(n, VARIANTS[n][0], variants[n][0]) for n in names]
+    # ---- (3) spec -> code: walks of the model of the code as it is, forced
+    nw = 24 if not T else 160
+    g = ctx.tlc(sd, "GenC06", "GenC06.cfg", workers=1, simulate="num=%d" % nw, depth=150, extra=["-seed", str(ctx.seed)],
+                timeout=900, label="schedule generation (walks of FlowQueueI)")
+    walks = tlc_vh_lines(g.out)
+    walks.sort(key=len, reverse=True)
+    keep = []
+    for wk in walks:                               # a walk printed at quiescence and again later: keep the longest
+        if not any(k[:len(wk)] == wk for k in keep):
+            keep.append(wk)
+    walks = keep[: nw]
+    if len(walks) < nw // 3:
+        raise Broken("schedule generation produced %d walks: %s" % (len(walks), g.out[-1500:]))
+    geninst = dict(SMALL3, QueueSize=2, QMax=1, QW=1, TTL=2, Prio="cPrio3")
+    for i, wk in enumerate(walks):
+        scs.append(directed_scenario("walk-%d" % i, geninst, wk))
+        names.append("walk-%d" % i)
+    nb = 6 if not T else 30
+    for k in range(nb):
+        scs.append(burst_scenario(ctx.rng, k))
+        names.append("burst-%d" % k)
+    # ---- (4) code -> spec: free-running recordings
+    nr = 30 if not T else 200
+    for k in range(nr):
+        scs.append(random_scenario(ctx.rng, k, T))
+        names.append("random-%d" % k)
+    traces = execute(ctx, binary, scs, "all", par=32)
+    verdicts = judge(ctx, traces, "all")
+    account(ctx, traces, verdicts, seen)
+
+    forced = diverged = 0
+    steps_of = {n: variants[n][0] for n in VARIANTS}
+    for i, wk in enumerate(walks):
+        steps_of["walk-%d" % i] = wk
+    for n, t in zip(names, traces):
+        if n in steps_of:
+            if any(e["ev"] == "diverged" for e in t):
+                diverged += 1
+            elif same_modulo_verdict_position(predicted_events(steps_of[n]), observed_events(t)):
+                forced += 1
+    ctx.log("forced schedules: %d as predicted by the model, %d could not be followed (of %d)" % (forced, diverged, len(steps_of)))
+    ctx.notes.append("schedules of FlowQueueI forced on the real code: %d reproduced the model's observable events exactly, "
+                     "%d diverged (real code left the schedule; recording still judged by P), of %d" % (forced, diverged, len(steps_of)))
+    if forced < max(3, len(walks) // 4):
+        raise Broken("only %d of %d model schedules could be forced on the real code (binding lost)" % (forced, len(steps_of)))
+    # the open finding must still be reproducible from the model's counterexample (else: close it)
+    for kf, (flag, val) in KF_FLAGS.items():
+        vn = next(n for n, (_, fl, _) in VARIANTS.items() if fl == {flag: val})
+        v = verdicts[names.index(vn)]
+        if v is None:
+            ctx.notes.append("open finding %s: the model's counterexample no longer shows on the real code" % kf)
+
+    report(ctx, binary, [(n, sc, t, v) for n, sc, t, v in zip(names, scs, traces, verdicts) if v is not None])
+    ctx.sample({"kind": "forced-schedule", "name": names[0], "events": [e for e in traces[0] if e["ev"] != "tick"][:16]})
+    ctx.sample({"kind": "free-running", "name": names[-1], "events": [e for e in traces[-1] if e["ev"] != "tick"][:16]})
+
+    if T:
+        # ---- (5) non-vacuity witnesses: each must be VIOLATED (the antecedents of the clauses are reachable)
+        for wname in ["W_Requeued", "W_TwoWaiting", "W_Granted", "W_Expired", "W_Drained"]:
+            cfg = "w_%s.cfg" % wname
+            open(os.path.join(sd, cfg), "w").write(cfg_text(dict(SMALL2, QueueSize=2), {}, invariants=[wname]))
+            r = ctx.tlc(sd, "MC_C06", cfg, timeout=600, workers=4, extra=["-noGenerateSpecTE"], label="witness %s must be reachable" % wname)
+            if r.violated is None:
+                raise Broken("witness %s is unreachable: the exhaustive run is vacuous for it\n%s" % (wname, r.out[-800:]))
+        # ---- (6) binding self-test: corrupted recordings must be rejected
+        base = next((t for n, t, v in zip(names, traces, verdicts) if v is None and n.startswith("random")
+                     and any(e["ev"] == "grant" for e in t) and not any(e["ev"] == "crash" for e in t)), None)
+        if base is None:
+            raise Broken("self-test: no accepted free-running recording with an admission")
+        k = next(i for i, e in enumerate(base) if e["ev"] == "grant")
+        kq = max(i for i, e in enumerate(base[:k]) if e["ev"] == "quota" and e["id"] == base[k]["id"])
+        bad1 = [dict(e) for e in base]
+        bad1[kq]["ok"] = False                                   # admitted although the quota said no
+        bad2 = [e for i, e in enumerate(base) if not (e["ev"] == "verdict" and e["id"] == base[k]["id"])]   # verdict dropped
+        bad3 = [dict(e) for e in base] + [{"ev": "crash", "rc": 2, "msg": "injected"}]
+        res = judge(ctx, [bad1, bad2, bad3], "selftest")
+        if res[0] is None or res[0][1] != "T_OnlyIfQuota" or res[1] is None or res[2] is None:
+            raise Broken("self-test: corrupted recordings accepted: %r" % (res,))
+        ctx.notes.append("self-test: quota answer flipped -> %s, verdict dropped -> %s, crash appended -> %s" % (res[0][1], res[1][1], res[2][1]))
 
 
 def replay(ctx, path):
